@@ -784,6 +784,11 @@ def run(pid, tier, replay=None):
                     else:
                         res, m = rt.step()
                         lab.append(["block", res])
+                if run_.events and i % 2 == 0:
+                    # the node process dies and comes up again on its store: for the new process the blocks arrive in the order the store
+                    # returns them, and its head is the first of the greatest height among them
+                    run_.restart()
+                    lab.append(["restart"])
                 if run_.events:
                     ntraces.append(dict(run_.trace(), all_valid=True))      # p_mut = 0: every offered block is fully valid on an arrived parent
                     nlabels.append(lab)
